@@ -231,6 +231,8 @@ def history_case(ctx, mon, rng, S):
             ops.append(["range", i, rand_range(rng)])
         elif r < 0.42:
             ops.append(["clamp", i, rng.random() < 0.5])
+        elif r < 0.43:
+            ops.append(["ticks", i, rng.choice([None, 3, 10, 47])])  # asking for ticks / a formatter changes nothing the caller set
         elif r < 0.44:
             ops.append(["interpolate-round-trip", i])  # s.interpolate(s.interpolate()): sets what is already set
         elif r < 0.46:
@@ -277,6 +279,13 @@ def run_history(ctx, mon, S, case):
                     acc(lst)
                     wi["range" if op[0].startswith("range") else "domain"] = list(lst)
                     edited = True
+            elif op[0] == "ticks":
+                d_ = o.domain()
+                # ticks are claimed (C13) for spans of at least a millionth of the end points' magnitude; below that the step
+                # drops under the float resolution and the tick loop of the unchanged library does not advance
+                if abs(d_[1] - d_[0]) >= 1e-6 * max(abs(d_[0]), abs(d_[1]), 1e-300) and abs(d_[1] - d_[0]) >= 1e-9:
+                    list(o.ticks(op[2])) if op[2] is not None else list(o.ticks())
+                    o.tickFormat(op[2]) if op[2] is not None else o.tickFormat()
             elif op[0] == "interpolate-round-trip":
                 o.interpolate(o.interpolate())
             elif op[0] == "clamp":
